@@ -117,8 +117,14 @@ func bind(r *rand.Rand, i int, algos []string, ops []opSpec, src string, model m
 	cs.Pipe = pipeCaps[r.Intn(len(pipeCaps))]
 	cs.Alpha = r.Intn(2) == 0
 	cs.Seed = int64(r.Intn(1 << 30))
-	if r.Intn(6) == 0 {
-		cs.Bulk = 120 + r.Intn(160)
+	// a bulk part makes serialised snapshots span several rsync blocks, so
+	// that snapshot deltas carry block references and not only literal data
+	bulkEvery := 6
+	if src == "rand" {
+		bulkEvery = 3
+	}
+	if r.Intn(bulkEvery) == 0 {
+		cs.Bulk = 100 + r.Intn(80)
 	}
 	if model != nil {
 		// the model's configuration of this behaviour
